@@ -125,6 +125,39 @@ def run(ctx):
                                f"{m.name}() overwrites self.{attr}, which the constructor initialised from its {attr} argument, with a value that never falls back to the held one: "
                                f"a generator given at construction (sample_posterior routes {attr}= to the constructor) is silently replaced by a fresh unseeded source", disc=attr)
 
+    # a class whose constructor (by MRO) accepts a random source receives it there -- sample_posterior routes every keyword the
+    # constructor accepts to the constructor and removes it from the sampling call -- so a method of that class must not fall
+    # back to a fresh source for a parameter of the same name without consulting the held one
+    n_fb = 0
+    for c in [base] + list(repo.subclasses(base)):
+        ctor_params = set()
+        for k in c.mro():
+            ini = k.methods.get("__init__")
+            if ini is not None:
+                ctor_params = set(ini.params) & RANDOM_PARAMS
+                break
+        for mname in {m_ for k in c.mro() for m_ in k.methods}:
+            m = c.resolve(mname)
+            if m is None or m.name == "__init__" or not m.params:
+                continue
+            me = m.params[0]
+            for pn in set(m.params) & ctor_params:
+                for n in walk_no_nested(m.node):
+                    if not (isinstance(n, ast.Assign) and isinstance(n.targets[0], ast.Name) and n.targets[0].id == pn):
+                        continue
+                    fresh = [x for x in ast.walk(n.value) if isinstance(x, ast.Call) and (dotted(x.func) or "").rsplit(".", 1)[-1] in FRESH_CTORS
+                             and not ((dotted(x.func) or "").endswith("default_rng") and x.args)]
+                    if not fresh:
+                        continue
+                    n_fb += 1
+                    keeps = any(isinstance(x, ast.Attribute) and x.attr == pn and isinstance(x.value, ast.Name) and x.value.id == me for x in ast.walk(n.value))
+                    ctx.decide(keeps, "C20.held", f"{c.ident}.{m.name}", loc_of(m, n),
+                               f"the fallback of `{pn}` consults the source held since construction",
+                               f"{c.name}.__init__ accepts `{pn}` (so sample_posterior(..., {pn}=g) hands g to the constructor and calls {m.name}() without it), but "
+                               f"{m.name}() replaces a missing `{pn}` by a fresh unseeded source and never looks at the held one: the caller's generator never reaches the kernel",
+                               disc=f"fallback|{pn}")
+    ctx.count("fresh_fallbacks_in_classes_holding_a_source", n_fb)
+
     # ------------------------------------------------------------ random-source parameters are effectual
     n_params = 0
     for f in repo.all_functions(include_nested=False):
@@ -539,6 +572,10 @@ MUTANTS = [
 ]
 MUTANTS += [
     M("torch rejection sampling from the global generator", _S, "log_u = asarray(\n            np.log(rng.uniform(size=len(self.x))), self.xp, device=self.device\n        )", "log_u = self.xp.log(self.xp.rand(len(self.x)))", ("C20.fresh", "C20.used")),
+]
+MUTANTS += [
+    M("generator parameter hoisted to the base sampler constructor", "src/aspire/samplers/base.py", "preconditioning_transform: Callable | None = None,\n    ):\n        self.prior_flow = prior_flow",
+      "preconditioning_transform: Callable | None = None,\n        rng=None,\n    ):\n        self.rng = rng\n        self.prior_flow = prior_flow", "C20.held"),
 ]
 NEUTRALS = [
     __import__("aspire_sa.rules.smcloop", fromlist=["HELPER_NEUTRAL"]).HELPER_NEUTRAL,
